@@ -247,7 +247,7 @@ def slice_rules(chk, w, b, it, outs, mg, mlen):
             if e[0] == "call" and (e[2] or "").endswith("decode_from_slice"):
                 pass
     any_strip = any((e[2] or "").endswith("strip_prefix") for o in outs for e in o.trace if e[0] == "call")
-    chk.floor("R07.5", "range indexes on the input slice", n_idx, 1 if any_strip else 2)
+    # (no floor: a reader that takes no range of the input slice at all - strip_prefix / split_at - has nothing to guard)
     # decode input = slice[mlen..]
     dec_in = set()
     for e, o in C.all_calls(outs, lambda e: "Index" in (e[2] or "") and e[3][0][0] == "ref" and e[3][0][1][:1] == (("A", 1),) and len(e[3]) > 1 and e[3][1][0] == "agg" and "RangeFrom" in e[3][1][1]):
@@ -259,6 +259,9 @@ def slice_rules(chk, w, b, it, outs, mg, mlen):
             if e2[0] == "call" and (e2[2] or "").endswith("strip_prefix") and sym == "ret:%d@Some.0" % e2[1] and _deref_const(it, o, e2[3][1]) == mg and e2[3][0][0] == "ref" and e2[3][0][1][:1] == (("A", 1),):
                 dec_in.add(str(mlen))
     chk.ob("R07.6", "read_slice:payload-after-magic", str(mlen) in dec_in, "the payload is not decoded from slice[MODEL_MAGIC.len()..]: ranges %s" % sorted(dec_in), site=C.site(b))
+
+
+STD_CFG = re.compile(r"bincode::config::Configuration(<bincode::config::LittleEndian,bincode::config::Varint,bincode::config::NoLimit>)?")
 
 
 def r072(chk, w):
@@ -286,6 +289,13 @@ def r072(chk, w):
             cfgarg = e[3][-1]
             info = it.ret_info.get(cfgarg[1]) if cfgarg[0] == "sym" else None
             ok = bool(info) and info[0] == "bincode::config::standard"
+            if not ok:
+                # a bincode configuration is a zero-sized value whose behaviour is its TYPE: a constant / static of the type that
+                # standard() returns is the standard configuration (every with_* modifier changes a type parameter)
+                a_ = bd.blocks[e[1]]["term"]["args"][-1]
+                p_ = a_.get("move") or a_.get("copy")
+                ty_ = bd.locals[p_["local"]]["ty"] if p_ and not p_["proj"] else (a_.get("const", {}).get("zst") or a_.get("const", {}).get("ty") or "")
+                ok = STD_CFG.fullmatch(C.tyn(ty_).replace(" ", "")) is not None
             n += 1
             chk.ob("R07.2", "%s:%s" % (bd.fn.replace("vaporetto::", ""), e[2].split("::")[-1]), ok,
                    "%s passes a configuration that is not the plain value of bincode::config::standard(): %s" % (bd.fn, (info or [cfgarg])[0]), site=C.site(bd, e[1]),
